@@ -47,6 +47,9 @@ def ctx():
     tasks = [v for v in ref.accepted(lt, vi - 1, ref.literals()) if v != f1[vi - 1]]
     other[vi - 1] = tasks[0]
     C["taskB"] = other
+    # versions the configured pattern accepts beyond the usual width (a pattern such as v\d\d\d\d? makes v1000 a version)
+    C["VERS"] = list(VERS) + [v for v in ("v1000", "v1001") if ref.forced("/".join(f1[:vi] + [v]), ref.natural("/".join(f1[: vi + 1]))[0]) is not None]
+    C["accepts"] = lambda v: ref.forced("/".join(f1[:vi] + [v]), ref.natural("/".join(f1[: vi + 1]))[0]) is not None
     return C
 
 
@@ -65,7 +68,7 @@ def scopes(C, S1, S2):
 
 def sid_cases(C):
     """(string, scope name, version value or None)"""
-    vals = VERS + ["v005", "v000", "*", ">"]
+    vals = C["VERS"] + ["v005", "v000", "*", ">"]
     t = C["task"]
     yield "/".join(t), "version", None
     for v in vals:
@@ -90,7 +93,7 @@ def expected(C, s, scope, v, existing):
 
     def succ(x):
         n = (num(x) if x else 0) + 1
-        return fmt(n) if n <= 999 else None
+        return fmt(n) if C["accepts"](fmt(n)) else None     # representable = accepted by the configured version pattern
 
     exp = {}
     exp["get_last"] = with_version(last) if last else ""
@@ -158,7 +161,7 @@ def run_shard(sh):
     root = pr.root()
     rec = Recorder(sh.get("index", 0), sh.get("count", 1), sh["seed"])
     if sh["mode"] == "single":
-        subsets = [list(c) for r in range(0, len(VERS) + 1) for c in itertools.combinations(VERS, r)]
+        subsets = [list(c) for r in range(0, len(C["VERS"]) + 1) for c in itertools.combinations(C["VERS"], r)]
         for S1 in subsets:
             for S2 in ([], ["v002"], ["v999"]):
                 key = ",".join(S1) + "|" + ",".join(S2)
@@ -206,9 +209,9 @@ def run_shard(sh):
         m = {k: tuple(v) for k, v in model.items()}
         key = who + ":" + sc
         cur = m.get(key, ())
-        last = max(cur) if cur else None
+        last = max(cur, key=num) if cur else None          # "strictly increasing": the successor of the greatest version number
         n = (num(last) if last else 0) + 1
-        if n > 999:
+        if not C["accepts"](fmt(n)):
             return m, ["none"]
         nv = fmt(n)
         m[key] = tuple(sorted(set(cur) | {nv}))
@@ -230,20 +233,27 @@ def run_shard(sh):
         # publishing sequences in one continuous process state: no cache reset, no tree restore, long-lived Finders
         L = 6 if sh["tier"] == "thorough" else 4
         n = 0
-        for l in range(1, L + 1):
+        starts = [("empty", [], {})]
+        # near the last representable version: two scene versions just below the maximum already exist
+        hi = [v for v in ("v997", "v998")]
+        starts.append(("near-max", [mk(C["task"], v, C["scene_tail"]) for v in hi], {"A:scene": tuple(hi), "A:version": tuple(hi)}))
+        for sname, ents, model0 in starts:
+          for l in range(1, L + 1):
             for seq in itertools.product(OPS, repeat=l):
                 n += 1
                 if n % sh["count"] != sh["index"]:
                     continue
                 env.clear_tree()
+                if ents:
+                    tree.materialize(ref, pr, ents)
                 env.reset()
-                model = {}
+                model = dict(model0)
                 for i, op in enumerate(seq):
                     got = apply_real(op, reset=False)
                     model, want = model_apply(model, op)
                     rec.transitions += 1
                     if got != want:
-                        rec.violation("publish-without-reset/" + bfs._sig(op, got, want), "sequence", {"hist": [list(o) for o in seq[: i + 1]]}, got, want)
+                        rec.violation("publish-without-reset/" + bfs._sig(op, got, want), "sequence", {"hist": [list(o) for o in seq[: i + 1]], "start": sname}, got, want)
                         break
                 rec.traces += 1
                 rec.case("publish-sequence-no-reset-len-%d" % l, True, sample=[o[1] for o in seq])
@@ -269,7 +279,7 @@ def run_shard(sh):
 
 
 def replay_case(kind, case):
-    from mc import env, tree
+    from mc import env, tree, bfs
     C = ctx()
     c0 = C["names"][0]
     pr = C["prs"][c0]
@@ -285,6 +295,10 @@ def replay_case(kind, case):
     env.clear_tree()
     psid = dict(publishers(C))
     model = {}
+    if case.get("start") == "near-max":
+        hi = ["v997", "v998"]
+        tree.materialize(C["ref"], pr, [mk(C["task"], v, C["scene_tail"]) for v in hi])
+        model = {"A:scene": tuple(hi), "A:version": tuple(hi)}
     if kind == "sequence":
         env.reset()
     for i, op in enumerate(case["hist"]):
@@ -305,9 +319,13 @@ def replay_case(kind, case):
         who, sc = {"task-A": ("A", "version"), "scene-A": ("A", "scene"), "movie-A": ("A", "movie"), "task-B": ("B", "version")}[op[1]]
         key = who + ":" + sc
         cur = model.get(key, ())
-        last = max(cur) if cur else None
+        last = max(cur, key=num) if cur else None
         n = (num(last) if last else 0) + 1
         nv = fmt(n)
+        if not C["accepts"](nv):
+            if got != ["none"]:
+                out.append(dict(signature="publish-without-reset/" + bfs._sig(op, got, ["none"]) if kind == "sequence" else "operation-result/x", observed=got, expected=["none"]))
+            continue
         model[key] = tuple(sorted(set(cur) | {nv}))
         if sc != "version":
             model[who + ":version"] = tuple(sorted(set(model.get(who + ":version", ())) | {nv}))
